@@ -67,11 +67,18 @@ def make_specs():
         Coalesce('rec.zz', default='none'),                          # 15 a dict-subclass instance: its handler is looked up by fuzzy type
         ('n', _raise_a),                                             # 16 a non-mutating callable raising an application error ...
         ('n', _raise_b),                                             # 17 ... and one raising ANOTHER class with the same __name__
+        Coalesce(Call(_pair, args=([T['a']['b'], T['opts']['a']],), kwargs={'k': {'d': T['opts']['b']}}), default='dflt'),   # 18 list / dict
+        #    literals in ARGUMENT position, rebuilt for every evaluation -- also after an evaluation in which one member failed
+        (S(pair=[T['n'], T['opts']['b']], none=[]), S['pair']),      # 19 the same through a scope assignment
     ]
 
 
 def _collect(**kw):
     return sorted(kw.items())
+
+
+def _pair(a, k=None):
+    return [a, k]
 
 
 class Rec(dict):
@@ -95,7 +102,7 @@ def _raise_b(t):
     raise ERR_B(t)
 
 
-NTHUNK = 18
+NTHUNK = 20
 G = [None]
 
 
